@@ -97,6 +97,7 @@ type FuncContract struct {
 	Frame    bool
 	Context  bool
 	Pure     bool
+	uniq     string
 	Inline   []string
 	Havoc    []string
 	Assigns  []string
@@ -114,7 +115,7 @@ type FuncContract struct {
 	ParamSet map[string]string // notnil etc.
 }
 
-func (fc *FuncContract) base() string      { return safeName(fc.Func) }
+func (fc *FuncContract) base() string      { return safeName(fc.Func) + fc.uniq }
 func (fc *FuncContract) preFunc() string   { return "verif_pre_" + fc.base() }
 func (fc *FuncContract) postFuncs() []postFn { return fc.posts }
 func (fc *FuncContract) invFuncs(loop int) []string {
@@ -765,7 +766,13 @@ func (lc *lowerCtx) paramList(names []string, kind string, oldTypes map[string]s
 func generateOverlay(pkg *packages.Package, contracts []*FuncContract, regions []Finding) (string, error) {
 	g := &genInfo{pkg: pkg, imports: map[string]string{}}
 	var body strings.Builder
+	seenBase := map[string]int{}
 	for _, fc := range contracts {
+		// several contract blocks may name one function (a template instance plus a specific block)
+		seenBase[safeName(fc.Func)]++
+		if n := seenBase[safeName(fc.Func)]; n > 1 {
+			fc.uniq = fmt.Sprintf("_c%d", n)
+		}
 		fd, lit, sig := findFunc(pkg, fc.Func)
 		if fd == nil && fc.sig == nil {
 			return "", fmt.Errorf("%s:%d: contract for unknown function %s", fc.File, fc.Line, fc.Func)
